@@ -486,7 +486,8 @@ Proof.
   destruct (existsb (fun d => negb (is_nil d)) ds) eqn:Eany; cbn [negb].
   - destruct (odedup (filter ontrivial ds)) as [|d [|d2 nt]] eqn:Ent.
     + intros H. left. apply omax_by_first_In. exact H.
-    + intros H. injection H as <-. left.
+    + destruct (has_nan d && existsb (fun x => negb (ochunks_eqb x d)) ds); [discriminate|].
+      intros H. injection H as <-. left.
       assert (Hin : In d (odedup (filter ontrivial ds))) by (rewrite Ent; left; reflexivity).
       apply odedup_In, filter_In in Hin. apply Hin.
     + destruct (oknown_all ds) as [kds|] eqn:Ek; [|discriminate].
@@ -517,7 +518,8 @@ Proof.
     destruct (existsb (fun d => negb (is_nil d)) ds) eqn:Eany; cbn [negb].
     - destruct (odedup (filter ontrivial ds)) as [|d [|d2 nt]] eqn:Ent.
       + apply omax_by_first_In.
-      + intros H. injection H as <-.
+      + destruct (has_nan d && existsb (fun x => negb (ochunks_eqb x d)) ds); [discriminate|].
+        intros H. injection H as <-.
         assert (Hin : In d (odedup (filter ontrivial ds))) by (rewrite Ent; left; reflexivity).
         apply odedup_In, filter_In in Hin. apply Hin.
       + destruct (oknown_all ds) as [kds|] eqn:Ek; [|discriminate]. intros _. exfalso.
@@ -681,7 +683,8 @@ Proof.
   destruct (filter nontrivial ds) as [|d [|d2 nt]] eqn:Ent; cbn [map].
   - unfold common_blockdim. rewrite (NoDup_dedup ds Hnd), E2, Ent. cbn [negb of_ures].
     apply omax_by_first_known; assumption.
-  - unfold common_blockdim. rewrite (NoDup_dedup ds Hnd), E2, Ent. reflexivity.
+  - rewrite has_nan_map_Some. cbn [andb].
+    unfold common_blockdim. rewrite (NoDup_dedup ds Hnd), E2, Ent. reflexivity.
   - assert (Ek : oknown_all (map (map Some) ds) = Some ds) by (apply oknown_all_spec; reflexivity).
     rewrite Ek. reflexivity.
 Qed.
@@ -879,6 +882,25 @@ Proof.
   destruct (odedup (filter ontrivial ds)) as [|d1 [|d2 nt]]; cbn [length] in Hlen; try lia.
   assert (E : oknown_all ds = None) by (apply oknown_all_none; exists d; auto).
   rewrite E. reflexivity.
+Qed.
+
+(* a multi-block layout with an unknown size next to ANY other layout (in particular a known single chunk,
+   which would be paired whole with every block): refused *)
+Theorem common_blockdim_u_refuses_other ds d x :
+  In d ds -> ontrivial d = true -> has_nan d = true -> In x ds -> x <> d ->
+  common_blockdim_u ds = Refuse ValueError.
+Proof.
+  intros Hd Hnt Hn Hx Hxd.
+  assert (Hdin : In d (odedup (filter ontrivial ds))) by (apply odedup_In, filter_In; auto).
+  destruct (odedup (filter ontrivial ds)) as [|d1 [|d2 nt]] eqn:Ent.
+  - destruct Hdin.
+  - destruct Hdin as [->|[]]. unfold common_blockdim_u.
+    rewrite (has_nan_nonempty ds d Hd Hn). cbn [negb]. rewrite Ent, Hn. cbn [andb].
+    assert (E : existsb (fun y => negb (ochunks_eqb y d)) ds = true).
+    { apply existsb_exists. exists x. split; [exact Hx|].
+      destruct (ochunks_eqb x d) eqn:Exd; [|reflexivity]. apply ochunks_eqb_eq in Exd. contradiction. }
+    rewrite E. reflexivity.
+  - apply common_blockdim_u_refuses; [exists d; auto|]. rewrite Ent. cbn [length]. lia.
 Qed.
 
 (* an unknown layout next to a layout with a different number of blocks: refused *)
